@@ -179,7 +179,7 @@ func c19Extra(tier string, _ int64) *runner.ExtraResult {
 			has bool
 			n   string
 		}{{false, ""}, {true, "x"}, {true, ""}} {
-			for _, rules := range [][][]string{nil, {{"y"}}, {{"x", "y"}}, {{"x"}, {"z"}}, {nil}} {
+			for _, rules := range [][][]string{nil, {{"y"}}, {{"x", "y"}}, {{"x"}, {"z"}}, {nil}, {{"x", ""}}} {
 				ings = append(ings, Ing{NS: ns, Name: fmt.Sprintf("i%d", len(ings)), HasDef: def.has, Default: def.n, Rules: rules})
 			}
 		}
@@ -267,7 +267,7 @@ func c19Extra(tier string, _ int64) *runner.ExtraResult {
 
 	// ---- selector-match filter
 	var smObjs []metav1.Object
-	lm := labelMaps([]string{"1", "2"})
+	lm := labelMapsE([]string{"1", "2"})
 	for _, ns := range []string{"a", "b"} {
 		smObjs = append(smObjs, mkSvc(ns, "s", nil, nil))
 		for _, s := range lm {
